@@ -19,8 +19,10 @@ REGISTRY = {
             'residues, duplicate free; the key list of fragment is duplicate free and is exactly the product ion type x its spans x '
             'isotopes x applicable losses x charges; each mass = table offset + sum of the per-residue components of its own span; all '
             'return types and Fragmenter are projections of one list; numbering/label laws; slices carry the mods of their residues '
-            'and termini), for every length and every weight function; frag_mass_eq_mass: on the concrete mass model (fast path) the '
-            'ion mass equals mass(ion sequence, ion type, charge, isotope, loss). The model is tied to /repo by differential correspondence (fragment, Fragmenter, get_losses, get_number, '
+            'and termini; per-span applicability of loss rules incl. the built-in water/ammonia residue classes), for every length and '
+            'every weight function; frag_mass_eq_mass / frag_mass_eq_mass_labelled: on the concrete mass model (fast path, and the '
+            'composition path for isotope-labelled peptides with the label shift keyed by ion type and charge) the ion mass equals '
+            'mass(ion sequence, ion type, charge, isotope, loss). The model is tied to /repo by differential correspondence (fragment, Fragmenter, get_losses, get_number, '
             'get_label, slice, span helpers); the numeric clause "ion mass = mass(ion sequence, ...)" is evaluated on the real code',
     'note': 'trusted: Lean kernel, axioms propext/Classical.choice/Quot.sound, the correspondence harness; masses are abstract in the '
             'model (per-residue components and table constants are sent from Python as exact rationals), regex matching of loss '
@@ -946,6 +948,7 @@ def run(chk):
     chk.notes.append('correspondence + oracle: %.1f s' % (time.time() - t0))
     if tier == 'thorough':
         chk.leanchecker(['PeptVerif.Model.Fragment', 'PeptVerif.Lemmas.Fragment', 'PeptVerif.Lemmas.FragmentMass',
+                         'PeptVerif.Lemmas.FragmentLabel',
                          'PeptVerif.Props.C04', 'PeptVerif.Props.C04Mass'])
     return chk.finish(classify)
 
